@@ -1,24 +1,45 @@
 Base/Prelude.vo Base/Prelude.glob Base/Prelude.v.beautified Base/Prelude.required_vo: Base/Prelude.v 
 Base/Prelude.vio: Base/Prelude.v 
 Base/Prelude.vos Base/Prelude.vok Base/Prelude.required_vos: Base/Prelude.v 
+Base/Wrap.vo Base/Wrap.glob Base/Wrap.v.beautified Base/Wrap.required_vo: Base/Wrap.v 
+Base/Wrap.vio: Base/Wrap.v 
+Base/Wrap.vos Base/Wrap.vok Base/Wrap.required_vos: Base/Wrap.v 
+Gen/JumpGen.vo Gen/JumpGen.glob Gen/JumpGen.v.beautified Gen/JumpGen.required_vo: Gen/JumpGen.v Base/Wrap.vo
+Gen/JumpGen.vio: Gen/JumpGen.v Base/Wrap.vio
+Gen/JumpGen.vos Gen/JumpGen.vok Gen/JumpGen.required_vos: Gen/JumpGen.v Base/Wrap.vos
 Model/Limiter.vo Model/Limiter.glob Model/Limiter.v.beautified Model/Limiter.required_vo: Model/Limiter.v Base/Prelude.vo
 Model/Limiter.vio: Model/Limiter.v Base/Prelude.vio
 Model/Limiter.vos Model/Limiter.vok Model/Limiter.required_vos: Model/Limiter.v Base/Prelude.vos
 Model/Breaker.vo Model/Breaker.glob Model/Breaker.v.beautified Model/Breaker.required_vo: Model/Breaker.v Base/Prelude.vo
 Model/Breaker.vio: Model/Breaker.v Base/Prelude.vio
 Model/Breaker.vos Model/Breaker.vok Model/Breaker.required_vos: Model/Breaker.v Base/Prelude.vos
+Model/Hash.vo Model/Hash.glob Model/Hash.v.beautified Model/Hash.required_vo: Model/Hash.v Base/Prelude.vo Base/Wrap.vo Gen/JumpGen.vo
+Model/Hash.vio: Model/Hash.v Base/Prelude.vio Base/Wrap.vio Gen/JumpGen.vio
+Model/Hash.vos Model/Hash.vok Model/Hash.required_vos: Model/Hash.v Base/Prelude.vos Base/Wrap.vos Gen/JumpGen.vos
+Model/Strategy.vo Model/Strategy.glob Model/Strategy.v.beautified Model/Strategy.required_vo: Model/Strategy.v Base/Prelude.vo Base/Wrap.vo Model/Hash.vo
+Model/Strategy.vio: Model/Strategy.v Base/Prelude.vio Base/Wrap.vio Model/Hash.vio
+Model/Strategy.vos Model/Strategy.vok Model/Strategy.required_vos: Model/Strategy.v Base/Prelude.vos Base/Wrap.vos Model/Hash.vos
 Proofs/LimiterProofs.vo Proofs/LimiterProofs.glob Proofs/LimiterProofs.v.beautified Proofs/LimiterProofs.required_vo: Proofs/LimiterProofs.v Base/Prelude.vo Model/Limiter.vo
 Proofs/LimiterProofs.vio: Proofs/LimiterProofs.v Base/Prelude.vio Model/Limiter.vio
 Proofs/LimiterProofs.vos Proofs/LimiterProofs.vok Proofs/LimiterProofs.required_vos: Proofs/LimiterProofs.v Base/Prelude.vos Model/Limiter.vos
 Proofs/BreakerProofs.vo Proofs/BreakerProofs.glob Proofs/BreakerProofs.v.beautified Proofs/BreakerProofs.required_vo: Proofs/BreakerProofs.v Base/Prelude.vo Model/Breaker.vo
 Proofs/BreakerProofs.vio: Proofs/BreakerProofs.v Base/Prelude.vio Model/Breaker.vio
 Proofs/BreakerProofs.vos Proofs/BreakerProofs.vok Proofs/BreakerProofs.required_vos: Proofs/BreakerProofs.v Base/Prelude.vos Model/Breaker.vos
+Proofs/HashProofs.vo Proofs/HashProofs.glob Proofs/HashProofs.v.beautified Proofs/HashProofs.required_vo: Proofs/HashProofs.v Base/Prelude.vo Base/Wrap.vo Gen/JumpGen.vo Model/Hash.vo
+Proofs/HashProofs.vio: Proofs/HashProofs.v Base/Prelude.vio Base/Wrap.vio Gen/JumpGen.vio Model/Hash.vio
+Proofs/HashProofs.vos Proofs/HashProofs.vok Proofs/HashProofs.required_vos: Proofs/HashProofs.v Base/Prelude.vos Base/Wrap.vos Gen/JumpGen.vos Model/Hash.vos
+Proofs/StrategyProofs.vo Proofs/StrategyProofs.glob Proofs/StrategyProofs.v.beautified Proofs/StrategyProofs.required_vo: Proofs/StrategyProofs.v Base/Prelude.vo Base/Wrap.vo Model/Hash.vo Model/Strategy.vo Proofs/HashProofs.vo
+Proofs/StrategyProofs.vio: Proofs/StrategyProofs.v Base/Prelude.vio Base/Wrap.vio Model/Hash.vio Model/Strategy.vio Proofs/HashProofs.vio
+Proofs/StrategyProofs.vos Proofs/StrategyProofs.vok Proofs/StrategyProofs.required_vos: Proofs/StrategyProofs.v Base/Prelude.vos Base/Wrap.vos Model/Hash.vos Model/Strategy.vos Proofs/HashProofs.vos
 Cases/LimiterCase.vo Cases/LimiterCase.glob Cases/LimiterCase.v.beautified Cases/LimiterCase.required_vo: Cases/LimiterCase.v Base/Prelude.vo Model/Limiter.vo
 Cases/LimiterCase.vio: Cases/LimiterCase.v Base/Prelude.vio Model/Limiter.vio
 Cases/LimiterCase.vos Cases/LimiterCase.vok Cases/LimiterCase.required_vos: Cases/LimiterCase.v Base/Prelude.vos Model/Limiter.vos
 Cases/BreakerCase.vo Cases/BreakerCase.glob Cases/BreakerCase.v.beautified Cases/BreakerCase.required_vo: Cases/BreakerCase.v Base/Prelude.vo Model/Breaker.vo
 Cases/BreakerCase.vio: Cases/BreakerCase.v Base/Prelude.vio Model/Breaker.vio
 Cases/BreakerCase.vos Cases/BreakerCase.vok Cases/BreakerCase.required_vos: Cases/BreakerCase.v Base/Prelude.vos Model/Breaker.vos
+Cases/StrategyCase.vo Cases/StrategyCase.glob Cases/StrategyCase.v.beautified Cases/StrategyCase.required_vo: Cases/StrategyCase.v Base/Prelude.vo Base/Wrap.vo Model/Hash.vo Model/Strategy.vo
+Cases/StrategyCase.vio: Cases/StrategyCase.v Base/Prelude.vio Base/Wrap.vio Model/Hash.vio Model/Strategy.vio
+Cases/StrategyCase.vos Cases/StrategyCase.vok Cases/StrategyCase.required_vos: Cases/StrategyCase.v Base/Prelude.vos Base/Wrap.vos Model/Hash.vos Model/Strategy.vos
 Props/C09.vo Props/C09.glob Props/C09.v.beautified Props/C09.required_vo: Props/C09.v Base/Prelude.vo Model/Limiter.vo Proofs/LimiterProofs.vo
 Props/C09.vio: Props/C09.v Base/Prelude.vio Model/Limiter.vio Proofs/LimiterProofs.vio
 Props/C09.vos Props/C09.vok Props/C09.required_vos: Props/C09.v Base/Prelude.vos Model/Limiter.vos Proofs/LimiterProofs.vos
@@ -28,3 +49,9 @@ Props/C07.vos Props/C07.vok Props/C07.required_vos: Props/C07.v Base/Prelude.vos
 Props/C08.vo Props/C08.glob Props/C08.v.beautified Props/C08.required_vo: Props/C08.v Base/Prelude.vo Model/Breaker.vo Proofs/BreakerProofs.vo
 Props/C08.vio: Props/C08.v Base/Prelude.vio Model/Breaker.vio Proofs/BreakerProofs.vio
 Props/C08.vos Props/C08.vok Props/C08.required_vos: Props/C08.v Base/Prelude.vos Model/Breaker.vos Proofs/BreakerProofs.vos
+Props/C06.vo Props/C06.glob Props/C06.v.beautified Props/C06.required_vo: Props/C06.v Base/Prelude.vo Base/Wrap.vo Model/Hash.vo Model/Strategy.vo Proofs/HashProofs.vo Proofs/StrategyProofs.vo
+Props/C06.vio: Props/C06.v Base/Prelude.vio Base/Wrap.vio Model/Hash.vio Model/Strategy.vio Proofs/HashProofs.vio Proofs/StrategyProofs.vio
+Props/C06.vos Props/C06.vok Props/C06.required_vos: Props/C06.v Base/Prelude.vos Base/Wrap.vos Model/Hash.vos Model/Strategy.vos Proofs/HashProofs.vos Proofs/StrategyProofs.vos
+Props/C05.vo Props/C05.glob Props/C05.v.beautified Props/C05.required_vo: Props/C05.v Base/Prelude.vo Base/Wrap.vo Model/Hash.vo Model/Strategy.vo Proofs/StrategyProofs.vo
+Props/C05.vio: Props/C05.v Base/Prelude.vio Base/Wrap.vio Model/Hash.vio Model/Strategy.vio Proofs/StrategyProofs.vio
+Props/C05.vos Props/C05.vok Props/C05.required_vos: Props/C05.v Base/Prelude.vos Base/Wrap.vos Model/Hash.vos Model/Strategy.vos Proofs/StrategyProofs.vos
